@@ -6,6 +6,7 @@ from __future__ import annotations
 
 import importlib
 import json
+import math
 import os
 import shutil
 import subprocess
@@ -167,13 +168,27 @@ def finish(prop, tier, seed, mod, plan, results, shard_errors, wall) -> int:
     # ---- verdict ------------------------------------------------------------------------------
     inconclusive: list[str] = []
     floors = dict(plan.get("floors", {}))
+    # Floors are sized for the planned number of cases.  When shards were cut by their soft time budget (a
+    # slow or busy host - never a property of the code under test) the floors shrink in proportion to the
+    # share of the planned cases that was done, but never below a tenth and never below 1: a monitor that
+    # was not reached at all still makes the run inconclusive.
+    cases_done_ = sum(r.get("cases_done", 0) for r in results)
+    cases_planned_ = int(plan.get("cases", 0)) or cases_done_
+    share = 1.0
+    if truncated and cases_planned_ and cases_done_ < cases_planned_:
+        share = max(0.1, cases_done_ / cases_planned_)
+
+    def scaled(floor: int) -> int:
+        return floor if share >= 1.0 else max(1, math.ceil(floor * share))
+
     for key, floor in floors.items():
-        if counters.get(key, 0) < floor:
-            inconclusive.append(f"monitor counter {key}={counters.get(key, 0)} below floor {floor}")
+        if counters.get(key, 0) < scaled(floor):
+            inconclusive.append(f"monitor counter {key}={counters.get(key, 0)} below floor {scaled(floor)}"
+                                + (f" (planned floor {floor} x {share:.2f} of the planned cases done)" if share < 1.0 else ""))
     if evaluations < int(plan.get("min_evaluations", 1)):
         inconclusive.append(f"evaluations={evaluations} below floor {plan.get('min_evaluations', 1)}")
-    if len(nontrivial) < int(plan.get("min_nontrivial", 2)):
-        inconclusive.append(f"distinct_nontrivial={len(nontrivial)} below floor {plan.get('min_nontrivial', 2)}")
+    if len(nontrivial) < scaled(int(plan.get("min_nontrivial", 2))):
+        inconclusive.append(f"distinct_nontrivial={len(nontrivial)} below floor {scaled(int(plan.get('min_nontrivial', 2)))}")
     if shard_errors:
         inconclusive.append(f"{len(shard_errors)} shard(s) failed: " + " | ".join(e[-300:] for e in shard_errors[:3]))
 
@@ -195,6 +210,7 @@ def finish(prop, tier, seed, mod, plan, results, shard_errors, wall) -> int:
         "shards_truncated_by_time_budget": truncated,
         "cases_planned": int(plan.get("cases", 1)),
         "cases_done": sum(r["cases_done"] for r in results),
+        "floors_scaled_by_share_of_planned_cases_done": round(share, 3),
         "floors": floors,
         "notes": notes,
         "known_findings_matched": [
